@@ -467,13 +467,41 @@ Theorem mon_life_nil_iff : forall f d opss ing obs,
 Proof. exact R02Mon.mon_life_nil_iff. Qed.
 Print Assumptions mon_life_nil_iff.
 
-(** PARTIAL (probe component only).  [R02Mon.model_tree g ver d H m opss ing obs]: the node at depth [d]
-    is not abnormal; at depth >= 1 its probe list consists of model observations for the history [H]
-    (d lives) and its media [m], and its [final] / [opres] components are ASSUMED clean (reads in a
-    running store after the restart: the crash model has no observation function for them); every
-    experiment is a crash of a model life [lf] on [m] — any reachable state, any log prefix, any loss
-    choice — whose uploads the node's op list attempted, and the subtree is a model tree for
-    [H ++ [lf]] on the media that crash leaves.  On such a tree the monitor reports nothing. *)
+(** the same lemma for a list of [Get] answers (the shape of [final]) and for the answers to the
+    (5 key) / (6 keys) operations of an op list ([opres]) — WHEN these are model observations of the
+    restart medium, which a running store's answers are only if the life has made no model step *)
+Theorem gets_silent_on_model : forall g ver H m opss gets,
+  length (g_locs g) < 65536 -> NoDup (g_locs g) -> (0 < g_sector g)%Z ->
+  CrashRepeat.lives g H m -> R02Mon.labelled ver H opss ->
+  R02Mon.indexed (R02Mon.model_get_obs g ver H m) 0%Z gets ->
+  flat_map (fun kg => get_clauses opss (fst kg) (snd kg)) (zip_index 0%Z gets) = [].
+Proof.
+  intros g ver H m opss gets G1 G2 G3.
+  exact (R02Mon.gets_silent_on_model g ver H m opss gets (conj G1 (conj G2 G3))).
+Qed.
+Print Assumptions gets_silent_on_model.
+
+Theorem opres_silent_on_model : forall g ver H m opss ops obs,
+  length (g_locs g) < 65536 -> NoDup (g_locs g) -> (0 < g_sector g)%Z ->
+  CrashRepeat.lives g H m -> R02Mon.labelled ver H opss ->
+  Forall (R02Mon.model_opres_obs g ver H m) (combine (sx_list ops) (sx_list (sx_nth obs 3))) ->
+  R02Mon.opres_clauses opss ops obs = [].
+Proof.
+  intros g ver H m opss ops obs G1 G2 G3.
+  exact (R02Mon.opres_silent_on_model g ver H m opss ops obs (conj G1 (conj G2 G3))).
+Qed.
+Print Assumptions opres_silent_on_model.
+
+(** PARTIAL (probe component; final / opres assumed, or of a life without a model step).
+    [R02Mon.model_tree g ver d H m opss ing obs]: the node at depth [d] is not abnormal; at depth >= 1 its
+    probe list consists of model observations for the history [H] (d lives) and its media [m]; its
+    [final] / [opres] components are ASSUMED clean — reads in a running store after the restart, for
+    which the crash model has no observation function (no read event, no volatile view of the data
+    device; a Get may refresh, so a life without uploads is not quiescent either) — or are model
+    observations of the restart medium (a life that made no model step); every experiment is a crash
+    of a model life [lf] on [m] — any reachable state, any log prefix, any loss choice — whose uploads
+    the node's op list attempted, and the subtree is a model tree for [H ++ [lf]] on the media that
+    crash leaves.  On such a tree the monitor reports nothing. *)
 Theorem mon02_silent_on_model_partial : forall g ver fuel ing obs,
   length (g_locs g) < 65536 -> NoDup (g_locs g) -> (0 < g_sector g)%Z ->
   R02Mon.model_tree g ver 0 [] medium_empty [] ing obs -> mon_life fuel 0 [] ing obs = [].
@@ -538,7 +566,9 @@ Definition ex_probe : sx := L [ex_miss 0; ex_miss 1; ex_miss 2; ex_miss 3; ex_mi
 Definition ex_gen2 : sx := L [L []; L []].
 Definition ex_gen1 : sx := L [L [L [A 1; A 6; A 1]]; L [L [A 0; A 0; L []; L []; A 0; A 0; ex_gen2]]]%Z.
 Definition ex_gen0 : sx := L [L [L [A 1; A 5; A 0]]; L [L [A 0; A 0; L []; L []; A 9; A 0; ex_gen1]]]%Z.
-Definition ex_obs2 : sx := L [L []; L []; ex_probe; L []; L []; L []; L []; L []].
+Definition ex_final2 : sx :=
+  L [L [A 5]; L [A 5]; L [A 5]; L [A 5]; L [A 5]; L [A 0; L [A 1; A 5; A 0]]; L [A 5]]%Z.
+Definition ex_obs2 : sx := L [L []; L []; ex_probe; L []; ex_final2; L []; L []; L []].
 Definition ex_final1 : sx :=
   L [L [A 5]; L [A 5]; L [A 5]; L [A 5]; L [A 5]; L [A 0; L [A 1; A 5; A 0]]; L [A 0; L [A 1; A 6; A 1]]]%Z.
 Definition ex_obs1 : sx :=
@@ -594,7 +624,7 @@ Proof.
   exists ex_lf1. split; [exists ex_tr; vm_compute; reflexivity|]. split; [exact ex_labelled1|].
   (* life 1: history [ex_lf1], media ex_m1 *)
   apply R02Mon.mt_node; [reflexivity| |].
-  - intros _. split; [|split; vm_compute; reflexivity].
+  - intros _. split; [|split; left; vm_compute; reflexivity].
     cbn [fst snd ex_obs1 ex_probe ex_miss ex_hit5 sx_nth sx_list nth R02Mon.indexed]. ex_probe_misses.
     + apply (R02Mon.mfo_present ex_g _ _ 3 ex_rec 0); [exact ex_resolves_after_commit|reflexivity].
     + apply (R02Mon.mgo_served ex_g ex_ver _ _ _ 3 ex_rec 0 ex_blk 0 0);
@@ -603,11 +633,17 @@ Proof.
     exists ex_lf2. split; [exists ex_tr2; vm_compute; reflexivity|]. split; [exact ex_labelled2|].
     (* life 2: history [ex_lf1; ex_lf2], media ex_m2 *)
     apply R02Mon.mt_node; [reflexivity| |constructor].
-    intros _. split; [|split; vm_compute; reflexivity].
-    cbn [fst snd ex_obs1 ex_obs2 ex_probe ex_miss ex_hit5 sx_nth sx_list nth R02Mon.indexed]. ex_probe_misses.
-    + apply (R02Mon.mfo_present ex_g _ _ 3 ex_rec 0); [exact ex2_old_record_resolves|reflexivity].
-    + apply (R02Mon.mgo_served ex_g ex_ver _ _ _ 3 ex_rec 0 ex_blk 0 0);
-        [exact ex2_old_record_resolves|reflexivity|vm_compute; reflexivity|rewrite ex_blk_loc; exact ex2_designates].
+    assert (Hserved : R02Mon.model_get_obs ex_g ex_ver (([] ++ [ex_lf1]) ++ [ex_lf2])
+                        (crash_of (crash_of medium_empty (CrashRepeat.lf_c ex_lf1) (CrashRepeat.lf_n ex_lf1) (CrashRepeat.lf_ch ex_lf1))
+                                  (CrashRepeat.lf_c ex_lf2) (CrashRepeat.lf_n ex_lf2) (CrashRepeat.lf_ch ex_lf2))
+                        (0 + 1 + 1 + 1 + 1 + 1)%Z (L [A 0; L [A 1; A 5; A 0]])%Z).
+    { apply (R02Mon.mgo_served ex_g ex_ver _ _ _ 3 ex_rec 0 ex_blk 0 0);
+        [exact ex2_old_record_resolves|reflexivity|vm_compute; reflexivity|rewrite ex_blk_loc; exact ex2_designates]. }
+    intros _. split; [|split; [right|left; vm_compute; reflexivity]].
+    + cbn [fst snd ex_obs1 ex_obs2 ex_probe ex_miss ex_hit5 sx_nth sx_list nth R02Mon.indexed]. ex_probe_misses.
+      * apply (R02Mon.mfo_present ex_g _ _ 3 ex_rec 0); [exact ex2_old_record_resolves|reflexivity].
+      * exact Hserved.
+    + cbn [fst snd ex_obs1 ex_obs2 ex_final2 sx_nth sx_list nth R02Mon.indexed]. ex_probe_misses. exact Hserved.
 Qed.
 Example ex_tree_silent : mon_life 6 0 [] ex_gen0 ex_obs0 = [].
 Proof.
